@@ -69,6 +69,7 @@ def run(ctx):
         cfg = gen.gen_cfg(rng, g, presentation=False, allow_cap=False)
         cfg['report'] = 'mixed'
         cfg['disable_comments'] = False
+        cfg['disable_exact'] = False      # a generalised '+' line carries the figure of its exact cardinality (documented)
         variants = []
         for _ in range(3):
             g2 = list(g)
@@ -89,6 +90,7 @@ def run(ctx):
             cfg = gen.gen_cfg(rng, g, presentation=False, allow_cap=False)
             cfg['report'] = 'mixed'
             cfg['disable_comments'] = False
+            cfg['disable_exact'] = False
             idx0 = len(cases)
             cases.append((g, cfg))
             variants = []
@@ -116,10 +118,33 @@ def run(ctx):
                 viol.append({"what": "implementation gave no result on the %s variant" % kind, "outcome": list(r[:3]), **pipeline.case_json(gv, cfg)})
                 continue
             ev, ch = evidence(r[1]), chosen(r[1])
+            tie = has_tie(r0[1]) or has_tie(r[1])
+            # (a) shapes, instance counts and constraint keys: always equal
+            hdr0 = {lab: v[0] for lab, v in ev0.items()}
+            hdr = {lab: v[0] for lab, v in ev.items()}
+            keys0 = {sh['label']: set(base.shape_keys(sh, cfg)) for sh in r0[1]['shapes']}
+            keys = {sh['label']: set(base.shape_keys(sh, cfg)) for sh in r[1]['shapes']}
+            if hdr != hdr0 or keys != keys0:
+                viol.append({"what": "shapes / instance counts / constraint keys differ after %s" % kind,
+                             "headers": [repr(hdr0)[:300], repr(hdr)[:300]],
+                             "keys": {l: [sorted(map(repr, keys0.get(l, set()) ^ keys.get(l, set())))[:6]] for l in set(keys) | set(keys0) if keys.get(l) != keys0.get(l)},
+                             "variant_nt": to_nt(gv), **pipeline.case_json(g, cfg)})
+                continue
+            # (b) no figure may contradict: the same (direction, property, type, cardinality) carries the same count in both runs
+            contradiction = None
+            for lab in ev:
+                f0 = {k[:4]: k[4] for k in ev0[lab][1]}
+                for k in ev[lab][1]:
+                    if k[:4] in f0 and f0[k[:4]] != k[4] and k[2] != 'NONLITERAL':
+                        contradiction = (lab, k, f0[k[:4]])
+            if contradiction:
+                viol.append({"what": "a figure changes after %s" % kind, "fact": repr(contradiction), "variant_nt": to_nt(gv), **pipeline.case_json(g, cfg)})
+                continue
+            # (c) the set of printed facts: equal unless alternatives tie (then which of the tied ones is printed depends on the order)
             if ev != ev0:
                 d = {lab: (sorted(map(repr, ev0.get(lab, (None, set()))[1] ^ ev.get(lab, (None, set()))[1]))[:6]) for lab in set(ev) | set(ev0)
                      if ev.get(lab) != ev0.get(lab)}
-                obs = {"kind": "evidence", "diff": d, "cfg": cfg, "triples": g, "variant": gv}
+                obs = {"kind": "evidence", "diff": d, "cfg": cfg, "triples": g, "variant": gv, "tie": tie}
                 fid = F.match(kf, obs)
                 if fid:
                     reproduced.add(fid)
@@ -128,9 +153,10 @@ def run(ctx):
                                  "difference": d, "variant_nt": to_nt(gv), **pipeline.case_json(g, cfg)})
                 continue
             tie = has_tie(r0[1]) or has_tie(r[1])
-            if schema or not tie:
+            if not tie:
                 stats["pairs_without_tie"] += 1
-                if ch != ch0:
+            if ch != ch0:
+                if True:
                     obs = {"kind": "choice", "cfg": cfg, "triples": g, "variant": gv, "schema": schema, "tie": tie, "ch0": ch0, "ch": ch}
                     fid = F.match(kf, obs)
                     if fid:
